@@ -150,22 +150,25 @@ def run_config(cli, wire, root, spec, nrep):
         res['status'] = 'generator-refuses'
         res['notes'].append(pg.stderr[-500:])
         return res
-    inj = spec['injector']['name']
-    ws = sig_of(os.path.join(d, 'wire_gen.go'), inj)
-    ks = sig_of(os.path.join(kd, 'kessoku_band.go'), inj)
-    if ws is None or ks is None:
-        res['status'] = 'no-injector'
-        res['notes'].append('wire sig %s kessoku sig %s' % (ws, ks))
-        return res
-    whaserr = ws['results'][-1] == 'error'
-    khaserr = ks['results'][-1] == 'error'
-    ok1 = wg.write_main(spec, d, [t for _, t in ws['params']], whaserr)
-    ok2 = wg.write_main(spec, kd, [t for _, t in ks['params']], khaserr, pkgid=sid + '_k')
-    kparams = [abstract_param(spec, t) for _, t in ks['params']]
+    injnames = [spec['injector']['name']] + ([spec['injector2']['name']] if spec.get('injector2') else [])
+    winjs, kinjs, kparams_of = [], [], {}
+    for inj in injnames:
+        ws = sig_of(os.path.join(d, 'wire_gen.go'), inj)
+        ks = sig_of(os.path.join(kd, 'kessoku_band.go'), inj)
+        if ws is None or ks is None:
+            res['status'] = 'no-injector'
+            res['notes'].append('%s: wire sig %s kessoku sig %s' % (inj, ws, ks))
+            return res
+        winjs.append((inj, [t for _, t in ws['params']], ws['results'][-1] == 'error'))
+        kinjs.append((inj, [t for _, t in ks['params']], ks['results'][-1] == 'error'))
+        kparams_of[inj] = [abstract_param(spec, t) for _, t in ks['params']]
+    ok1 = wg.write_main(spec, d, winjs)
+    ok2 = wg.write_main(spec, kd, kinjs, pkgid=sid + '_k')
+    kparams = kparams_of[injnames[0]]
     if not ok1 or not ok2:
         res['status'] = 'undrivable'
         res['kparams'] = kparams
-        res['notes'].append('params wire=%s kessoku=%s' % (ws['params'], ks['params']))
+        res['notes'].append('params wire=%s kessoku=%s' % (winjs, kinjs))
         # the migrated file must still compile with the wire files set aside (C14)
         open(os.path.join(kd, 'main.go'), 'w').write('package main\n\nfunc main() {}\n')
         bk = pl.run(['go', 'build', '-o', os.devnull, '.'], cwd=kd, env=wenv(), timeout=600)
@@ -186,22 +189,25 @@ def run_config(cli, wire, root, spec, nrep):
         res['status'] = 'kessoku-side-does-not-compile'
         res['notes'].append(bk.stderr[-800:])
         return res
-    fallibles = [f['name'] for f in spec['funcs'] if f['fallible'] and not f.get('decoy')]
-    for fail in [''] + fallibles:
-        env = dict(os.environ)
-        env['FAIL'] = fail
-        rw = subprocess.run([os.path.join(d, 'bin_w')], env=env, capture_output=True, text=True, timeout=60)
-        rk = subprocess.run([os.path.join(kd, 'bin_k')], env=env, capture_output=True, text=True, timeout=60)
-        try:
-            ow = json.loads(rw.stdout)
-            ok = json.loads(rk.stdout)
-        except ValueError:
-            res['status'] = 'driver-crash'
-            res['notes'].append((rw.stderr[-300:], rk.stderr[-300:]))
-            return res
-        for o in (ow, ok):
-            o['calls'] = o['calls'] or []
-        res['pairs'].append({'ev': 'Pair', 'cfg': sid, 'fail': fail, 'wire': ow, 'kessoku': ok, 'kparams': kparams})
+    for which, inj in enumerate(injnames, 1):
+        ab = wg.abstract(spec, which)
+        fallibles = [p['id'] for p in ab['providers'] if p['kind'] == 'fn' and p['fallible']]
+        for fail in [''] + fallibles:
+            env = dict(os.environ)
+            env['FAIL'] = fail
+            env['INJ'] = inj
+            rw = subprocess.run([os.path.join(d, 'bin_w')], env=env, capture_output=True, text=True, timeout=60)
+            rk = subprocess.run([os.path.join(kd, 'bin_k')], env=env, capture_output=True, text=True, timeout=60)
+            try:
+                ow = json.loads(rw.stdout)
+                ok = json.loads(rk.stdout)
+            except ValueError:
+                res['status'] = 'driver-crash'
+                res['notes'].append((rw.stderr[-300:], rk.stderr[-300:]))
+                return res
+            for o in (ow, ok):
+                o['calls'] = o['calls'] or []
+            res['pairs'].append({'ev': 'Pair', 'cfg': ab['id'], 'fail': fail, 'wire': ow, 'kessoku': ok, 'kparams': kparams_of[inj]})
     return res
 
 
@@ -313,7 +319,12 @@ def main(prop, tier):
             byid = {s['id']: s for s in specs}
             status = collections.Counter(r['status'] for r in results)
             rejects = collections.Counter(re.sub(r'"[^"]*"', 'X', r.get('why', '')) for r in results if r['status'] == 'wire-rejects')
-            cfgs = [wg.abstract(byid[r['id']]) for r in results if r['status'] != 'wire-rejects']
+            cfgs = []
+            for r in results:
+                if r['status'] != 'wire-rejects':
+                    cfgs.append(wg.abstract(byid[r['id']]))
+                    if byid[r['id']].get('injector2'):
+                        cfgs.append(wg.abstract(byid[r['id']], 2))
             lines = []
             for r in results:
                 if r['mig'] and prop == 'C14':
@@ -357,17 +368,18 @@ def main(prop, tier):
                     continue
                 if not v['clause'].startswith(prop):
                     continue
-                spec = byid.get(v['cfg'])
+                spec = byid.get(v['cfg'].split('#')[0])
                 feat = features(spec) if spec else ''
                 det = v['detail'] if v['clause'] in ('C14.refused', 'C14.compile', 'C14.accepted', 'C14.wrote-on-failure') else ''
                 det = re.sub(r'[A-Z]?[a-z]*[A-Z]\d+\b', 'X', det)[:80]
                 groups['%s|%s|%s' % (v['clause'], feat if v['clause'].startswith('C13') else '', det)].append(v)
             for sig, occ in sorted(groups.items()):
                 v = occ[0]
-                sp = byid.get(v['cfg'])
+                sp = byid.get(v['cfg'].split('#')[0])
                 files = {}
                 if sp:
-                    for fn in glob.glob(os.path.join(root, v['cfg'], '*.go')) + glob.glob(os.path.join(root, v['cfg'] + '_k', 'kessoku*.go')):
+                    cdir = v['cfg'].split('#')[0]
+                    for fn in glob.glob(os.path.join(root, cdir, '*.go')) + glob.glob(os.path.join(root, cdir + '_k', 'kessoku*.go')):
                         if not fn.endswith('main.go'):
                             files[os.path.relpath(fn, root)] = open(fn).read()[:6000]
                 rep.found(sig, '%s: %d record(s); first cfg %s fail=%r detail=%s' % (sig, len(occ), v['cfg'], v['fail'], v['detail'][:200]),
@@ -384,7 +396,7 @@ def main(prop, tier):
             sample = next((x for x in lines if x['ev'] == 'Pair'), lines[0])
             if prop == 'C13':
                 rep.cov.update({'programs': len([r for r in results if r['pairs']]), 'disagreements_checked': npairs,
-                                'samples': [{'config': wg.abstract(byid[sample['cfg']]), 'record': sample}] if sample['ev'] == 'Pair' else [sample],
+                                'samples': [{'config': wg.abstract(byid[sample['cfg'].split('#')[0]], 2 if '#2' in sample['cfg'] else 1), 'record': sample}] if sample['ev'] == 'Pair' else [sample],
                                 'configurations': len(specs), 'status': dict(status), 'wire_rejects': dict(rejects), 'states': st,
                                 'evaluations': npairs, 'distinct_nontrivial': len([r for r in results if r['pairs']])})
             else:
